@@ -126,14 +126,21 @@ def gen(rng, tier):
             ws = ws[:rng.choice([0, 12, 24])] if rng.random() < 0.5 else ws + ["abandon"]
         yield Case("algodec", ["ENGLISH", tx(" ".join(ws)), "-"], "neg-algo")
     # the 24th word carries 3 bits: every way of setting the unused high bits (each single bit, all of them, small multiples)
-    for _ in range(2 if tier == "quick" else 40):
-        e = bytes(rng.randrange(256) for _ in range(32))
-        ws = AlgorandMnemonicEncoder().Encode(e).ToList()
-        i = eng.GetWordIdx(ws[23])
-        for hi in [1 << b for b in range(8)] + [3, 5, 255, 254]:
+    # all 2048 words in the 24th position, each under the checksum word of the entropy its low 3 bits denote: exactly 8 are accepted
+    for _ in range(1 if tier == "quick" else 10):
+        e = bytearray(rng.randrange(256) for _ in range(32))
+        by_low = {}
+        for low in range(8):
+            e[31] = (e[31] & 0x1f) | (low << 5)          # the last 3 entropy bits are the low bits of word 24
+            ws = AlgorandMnemonicEncoder().Encode(bytes(e)).ToList()
+            by_low[eng.GetWordIdx(ws[23]) & 7] = ws
+        for v in range(2048):
+            ws = by_low.get(v & 7)
+            if ws is None:
+                continue
             w2 = list(ws)
-            w2[23] = eng.GetWordAtIdx((i & 7) | (hi << 3))
-            yield Case("algodec", ["ENGLISH", tx(" ".join(w2)), "-"], "neg-algo-padbits")
+            w2[23] = eng.GetWordAtIdx(v)
+            yield Case("algodec", ["ENGLISH", tx(" ".join(w2)), "-"], "algo-word24-sweep" if v < 8 else "neg-algo-padbits")
     for sz in (0, 16, 31, 33):
         yield Case("algoenc", [hx(bytes(sz))], "neg-algo-entlen")
     # ---- Electrum v2: bit-length boundaries of the entropy integer
